@@ -1734,6 +1734,25 @@ class ParseValueInterp(FxInterp):
             if isinstance(r, tuple) and r[:1] == ('ctor',) and (r[1].endswith('Option::None') or r[1].endswith('Result::Err')):
                 raise Rejected(pe['name'])
             raise Unanalysable(f'`{pe["name"]}` closure evaluates to {r!r:.60}')
+        if k == 'path' and pe.get('res') in ('Fn', 'AssocFn'):
+            # a helper of the workspace written as statements (several `parse_next` in a row) is not one sub-parser but the sequence it runs: it is evaluated,
+            # its own `parse_next` holes are filled from the list
+            wb = self._workspace_body(pe)
+            if wb is not None and sum(1 for x in walk_nodes(wb['body']) if x.get('k') == 'mcall' and x.get('name') == 'parse_next') >= 2:
+                r = self.apply_fn(wb, [('input',)])
+                if isinstance(r, tuple) and len(r) == 3 and r[0] == 'ctor' and r[1].endswith('Result::Ok'):
+                    return r[2][0]
+                if isinstance(r, tuple) and len(r) >= 2 and r[0] == 'ctor' and r[1].endswith('Result::Err'):
+                    raise Rejected(last_seg(pe.get('path') or ''))
+                raise Unanalysable(f'helper `{pe.get("path")}` evaluates to {r!r:.60}')
+        if k == 'closure' and len(pe.get('params', [])) == 1 and sum(1 for x in walk_nodes(pe.get('body', {})) if x.get('k') == 'mcall' and x.get('name') == 'parse_next') >= 2:
+            # the same helper after it was expanded in place (verif/normalise.py turns a helper used as a value into `|input| { body }`)
+            r = self.apply(self.val(pe, env), [('input',)])
+            if isinstance(r, tuple) and len(r) == 3 and r[0] == 'ctor' and r[1].endswith('Result::Ok'):
+                return r[2][0]
+            if isinstance(r, tuple) and len(r) >= 2 and r[0] == 'ctor' and r[1].endswith('Result::Err'):
+                raise Rejected('helper')
+            raise Unanalysable(f'expanded helper evaluates to {r!r:.60}')
         if not self.queue:
             raise Unanalysable('more sub-parsers than supplied outputs')
         return self.queue.pop(0)
